@@ -206,6 +206,7 @@ Proof.
       - rewrite !tp_eq. cbn. rewrite upd_same, Ht. cbn. lia. }
     unfold lw in *. cbn. lia.
   - (* LSemiDone *)
+    rewrite semi_release_eq.
     apply (mu_lt g s _ 1); [|lia|autorewrite with proj; cbn -[Nat.sub]; lia].
     assert (Hs : sumn (g_n g) (tp g (task_done (set_semi s (remove1 t (semi s))))) <= sumn (g_n g) (tp g s)).
     { apply sumn_le; intros; rewrite tp_task_done. apply Nat.eq_le_incl, tp_frame; reflexivity. }
